@@ -32,7 +32,7 @@ TRUSTED = [
     "nver (number of version-table statements per step) and createVT/dropVT are read from the implementation run and passed to the model as parameters; the theorems hold for every value of them",
 ]
 RULE = (
-    "(dialect_name for 5 dialects | live SQLite connection, fresh or already in a transaction) x transactional_ddl override x transaction_per_migration x history x command(upgrade/downgrade/stamp) "
+    "(dialect_name for 5 dialects | mssql/oracle with their batch separator emptied or customised | live SQLite connection, fresh or already in a transaction) x transactional_ddl override x transaction_per_migration x history x command(upgrade/downgrade/stamp) "
     "x bodies with 0-2 autocommit blocks; a case is non-trivial when the plan has >=1 step; distinct by "
     "(dialect, override, per_migration, token stream)"
 )
@@ -41,7 +41,7 @@ ASSUMPTIONS = ["env.py has the documented shape: with context.begin_transaction(
 DIALECTS = ["sqlite", "postgresql", "mysql", "mssql", "oracle"]
 
 
-def tokenise(text, rev_index):
+def tokenise(text, rev_index, seps=()):
     toks = []
     cur = None
     unknown = []
@@ -52,7 +52,7 @@ def tokenise(text, rev_index):
             continue
         first = c.splitlines()[0].strip()
         u = first.upper().rstrip(";").strip()
-        if c in ("GO", "/"):
+        if c in ("GO", "/") or c in seps:
             continue
         if u in ("BEGIN", "BEGIN TRANSACTION", "SET TRANSACTION READ WRITE"):
             toks.append("begin")
@@ -98,7 +98,7 @@ def _live_connection(in_txn):
     return conn
 
 
-def run_impl(dialect, override, per_mig, hist, cmd, target, start_rows, bodies, conn_mode=None):
+def run_impl(dialect, override, per_mig, hist, cmd, target, start_rows, bodies, conn_mode=None, dopts=None):
     """returns dict(toks, migs(for the model), dropVT, tddl, steps) or dict(err=...)"""
     buf = io.StringIO()
     holder = {}
@@ -150,6 +150,8 @@ def run_impl(dialect, override, per_mig, hist, cmd, target, start_rows, bodies, 
         opts["transactional_ddl"] = override
     if start_rows:
         opts["starting_rev"] = start_rows if len(start_rows) > 1 else start_rows[0]
+    if dopts:
+        opts.update(dopts)  # dialect options such as mssql_batch_separator
     conn = None
     if conn_mode is None:
         ctx = MigrationContext.configure(dialect_name=dialect, opts=opts)
@@ -178,7 +180,7 @@ def run_impl(dialect, override, per_mig, hist, cmd, target, start_rows, bodies, 
             rev_index[("stamp_revision", *st.short_log.split(" ", 1)[1].split(" -> "))] = i
             segs = []
         migs.append({"segs": [{"kind": k, "n": n} for k, n in segs]})
-    toks, unknown = tokenise(buf.getvalue(), rev_index)
+    toks, unknown = tokenise(buf.getvalue(), rev_index, seps=tuple(v for v in (dopts or {}).values() if v))
     before = [sorted(start_rows)] + heads_after[:-1]
     for i, m in enumerate(migs):
         m["nver"] = sum(1 for t in toks if t == "version:%d" % i)
@@ -224,11 +226,14 @@ def gen_case(rng, max_n):
     return hist, cmd, target, rows, gen_bodies(rng, hist)
 
 
-def one_case(ctx, dialect, override, per_mig, hist, cmd, target, rows, bodies, pending, conn_mode=None):
+def one_case(ctx, dialect, override, per_mig, hist, cmd, target, rows, bodies, pending, conn_mode=None, dopts=None):
     inp = {"dialect": dialect, "override": override, "perMig": per_mig, "hist": hist, "cmd": cmd,
            "target": target, "rows": rows, "bodies": {k: [list(s) for s in v] for k, v in bodies.items()},
            "conn": conn_mode}
-    r = run_impl(dialect, override, per_mig, hist, cmd, target, rows, bodies, conn_mode)
+    if dopts:
+        inp["dopts"] = dopts
+        ctx.hist("dialect_option", ", ".join("%s=%r" % kv for kv in sorted(dopts.items())))
+    r = run_impl(dialect, override, per_mig, hist, cmd, target, rows, bodies, conn_mode, dopts)
     ctx.hist("configured_with", conn_mode or "dialect_name")
     ctx.evaluation()
     ctx.hist("dialect", dialect)
@@ -280,6 +285,12 @@ def run(ctx, n_cases=None, rng_name="main"):
             for ov in (None, True, False):
                 for pm in (False, True):
                     one_case(ctx, d, ov, pm, hist, cmd, target, rows, bodies, pending)
+        # the dialects' own offline options: batch separator switched off / customised
+        for d, dopts in (("mssql", {"mssql_batch_separator": ""}), ("mssql", {"mssql_batch_separator": "BYE"}),
+                         ("oracle", {"oracle_batch_separator": ""}), ("oracle", {"oracle_batch_separator": "RUN"})):
+            for ov in (None, False):
+                for pm in (False, True):
+                    one_case(ctx, d, ov, pm, hist, cmd, target, rows, bodies, pending, dopts=dopts)
         # offline mode configured with a live connection (SQLite is the only live backend here),
         # fresh or already inside a transaction
         for ov in (None, True, False):
@@ -307,7 +318,7 @@ def replay(ctx, case):
     inp = case["input"]
     bodies = {k: [tuple(s) for s in v] for k, v in inp["bodies"].items()}
     tgt = tuple(inp["target"]) if isinstance(inp["target"], list) else inp["target"]
-    r = run_impl(inp["dialect"], inp["override"], inp["perMig"], inp["hist"], inp["cmd"], tgt, inp["rows"], bodies, inp.get("conn"))
+    r = run_impl(inp["dialect"], inp["override"], inp["perMig"], inp["hist"], inp["cmd"], tgt, inp["rows"], bodies, inp.get("conn"), inp.get("dopts"))
     if "err" in r:
         return {"impl": r}
     base = {"tddl": r["tddl"], "perMig": inp["perMig"], "migs": r["migs"], "dropVT": r["dropVT"],
